@@ -49,6 +49,13 @@ func (n *NALSpec) nal() []byte {
 	if b[len(b)-1] == 0 {
 		b[len(b)-1] = 0x80
 	}
+	if n.Seed&0x30000 == 0x10000 && len(b) >= 5 {
+		// an RBSP that ends in zero words gets a final emulation-prevention byte: the unit ends in 00 00 03
+		b[len(b)-3], b[len(b)-2], b[len(b)-1] = 0, 0, 3
+		if b[len(b)-4] == 0 {
+			b[len(b)-4] = 0x55
+		}
+	}
 
 	return b
 }
@@ -56,7 +63,8 @@ func (n *NALSpec) nal() []byte {
 type H264Call struct {
 	Units       []NALSpec `json:"units"`
 	LeadingZero bool      `json:"leading_zero"`
-	Bare        bool      `json:"bare"` // a single unit handed over without start code
+	Lead        int       `json:"lead,omitempty"` // further zero bytes in front of the first start code (leading_zero_8bits)
+	Bare        bool      `json:"bare"`           // a single unit handed over without start code
 }
 
 func (c *H264Call) buffer() []byte {
@@ -67,6 +75,7 @@ func (c *H264Call) buffer() []byte {
 	if c.LeadingZero {
 		out = append(out, 0)
 	}
+	out = append(out, make([]byte, c.Lead)...)
 	for i := range c.Units {
 		if c.Units[i].StartCode == 4 {
 			out = append(out, 0, 0, 0, 1)
@@ -418,7 +427,7 @@ func genH264PayCase(t *rapid.T) *H264PayCase {
 	var pendingPPS *NALSpec // a PPS that must directly follow an SPS emitted at the end of the previous call
 	afterPair := false      // a pair is followed by a unit that is not a parameter set (or by the end of the stream)
 	for k := 0; k < ncalls; k++ {
-		call := H264Call{LeadingZero: genBool(t, "leadzero")}
+		call := H264Call{LeadingZero: genBool(t, "leadzero"), Lead: rapid.SampledFrom([]int{0, 0, 0, 0, 1, 2}).Draw(t, "lead")}
 		nu := rapid.IntRange(1, 5).Draw(t, "nunits")
 		if pendingPPS != nil {
 			call.Units = append(call.Units, *pendingPPS)
@@ -551,7 +560,7 @@ func genH264DecCase(t *rapid.T) *H264DecCase {
 	return c
 }
 
-const ruleC10 = "payloader: 1-4 Payload calls on one H264Payloader, each an Annex-B buffer (3-/4-byte start codes, optional leading zero byte) or one bare unit; NAL types 1-23 weighted to 1,5,6,7,8,9,12, NRI 0-3, sizes 2 bytes to several MTUs biased to MTU+-2 and 1+k*(MTU-2)+-2 (one case in 60 holds a unit of 65534-131073 bytes, parameter sets included), bodies free of start-code emulation with a non-zero last byte; SPS/PPS only as adjacent pairs (possibly split across calls, a third of the later ones byte-identical to the previous pair); the payloads of a call are overwritten before the next call; MTU 3-1500 biased to 3-10; STAP-A on/off; AVC on/off. Oracle: independent RFC 6184 parser/reassembler on the output (single | STAP-A | FU-A shapes, S/E placement, >=2 fragments, R=0, no empty fragment, <= MTU, a pair whose aggregate fits the MTU as exactly one STAP-A (sizes biased to aggregate = MTU-1, MTU, MTU+1) and individually otherwise, IsPartitionHead on first payloads only, byte-exact units in order minus AUD/filler) and H264Packet output = reference depacketizer output per payload (payloads delivered as private copies or, half of the cases, through one receive buffer that is wiped before each delivery), the payload left unmodified, every output kept and compared again after the whole stream was decoded. decoder: streams from the independent encoder (single, STAP-A of 1-5 units, FU-A with arbitrary fragment sizes incl. 1-byte and empty ones, the start fragment included). Non-trivial = stream with an FU-A train or a STAP-A; distinct = FNV-64 of the JSON case"
+const ruleC10 = "payloader: 1-4 Payload calls on one H264Payloader, each an Annex-B buffer (3-/4-byte start codes, 0-3 zero bytes in front of the first one) or one bare unit; NAL types 1-23 weighted to 1,5,6,7,8,9,12, NRI 0-3, sizes 2 bytes to several MTUs biased to MTU+-2 and 1+k*(MTU-2)+-2 (one case in 60 holds a unit of 65534-131073 bytes, parameter sets included), bodies free of start-code emulation (a quarter with 00 00 03 sequences inside, one unit in four ending in 00 00 03) with a non-zero last byte; SPS/PPS only as adjacent pairs (possibly split across calls, a third of the later ones byte-identical to the previous pair); the payloads of a call are overwritten before the next call; MTU 3-1500 biased to 3-10; STAP-A on/off; AVC on/off. Oracle: independent RFC 6184 parser/reassembler on the output (single | STAP-A | FU-A shapes, S/E placement, >=2 fragments, R=0, no empty fragment, <= MTU, a pair whose aggregate fits the MTU as exactly one STAP-A (sizes biased to aggregate = MTU-1, MTU, MTU+1) and individually otherwise, IsPartitionHead on first payloads only, byte-exact units in order minus AUD/filler) and H264Packet output = reference depacketizer output per payload (payloads delivered as private copies or, half of the cases, through one receive buffer that is wiped before each delivery), the payload left unmodified, every output kept and compared again after the whole stream was decoded. decoder: streams from the independent encoder (single, STAP-A of 1-5 units, FU-A with arbitrary fragment sizes incl. 1-byte and empty ones, the start fragment included). Non-trivial = stream with an FU-A train or a STAP-A; distinct = FNV-64 of the JSON case"
 
 func TestC10(t *testing.T) {
 	r := begin(t, "C10", "exploration", ruleC10)
